@@ -120,6 +120,7 @@ fn main() {
                     }
                     if viol { break; }          // plain build: the violating call returns some value; the chain ends here
                     r = w2;
+                    if std::env::var("HX_DUMP").is_ok() { eprintln!("step {k} {op}: v0={:?} v1={:?} p0={} s0={} t0={} u0={:?} u1={:?}", r.v0, r.v1, r.p0, r.s0, r.t0, r.u0, r.u1); }
                     if let Err(e) = class_ok(&r) {
                         rep.mismatch(json!({"prop": "C20", "ty": "chain", "op": op, "step": k, "what": "the output does not satisfy the precondition class of its register", "detail": e,
                             "chain": c["chain"], "seed": c["seed"], "case": c}));
